@@ -42,8 +42,10 @@ def main():
     n = int(sc["n_tasks"])
     delays = sc.get("delays") or [0.0] * n
     modes = ["ok"] * n
-    if sc.get("fail_at") is not None:
-        modes[int(sc["fail_at"])] = sc.get("fail_type", "ValueError")
+    fa = sc.get("fail_at")
+    if fa is not None:
+        for k in (fa if isinstance(fa, list) else [fa]):
+            modes[int(k)] = sc.get("fail_type", "ValueError")
     args = [(i, float(delays[i]), modes[i]) for i in range(n)]
     model_exc = None
     model = []
@@ -55,6 +57,31 @@ def main():
     res = {"scenario": sc, "outcome": None}
     pm = ParallelMap(int(sc["np"]), equilibrium=c13_tasks.StubEq())
     ncalls = 2 if sc.get("second_call") else 1
+    # "repeat_failing": the failing call is made that many times before the final all-good call
+    repeat = int(sc.get("repeat_failing", 1))
+    for rep in range(repeat - 1):
+        done = {"d": False}
+
+        def failing_again():
+            try:
+                pm(c13_tasks.task, [(1000 * (rep + 1) + i, float(delays[i]), modes[i]) for i in range(n)], logdir=logdir)
+            except BaseException:  # noqa: BLE001
+                pass
+            done["d"] = True
+
+        th0 = threading.Thread(target=failing_again, daemon=True)
+        th0.start()
+        th0.join(20)
+        if not done["d"]:
+            res["outcome"] = None
+            res["call0"] = {"hang": True, "returned": False, "exception": None, "completion_order": [], "workers_alive": sum(1 for w in (pm.workers or []) if w.is_alive()), "note": "repeated failing call %d blocked" % (rep + 2)}
+            for w in pm.workers or []:
+                try:
+                    w.terminate()
+                except Exception:
+                    pass
+            print("RESULT " + json.dumps(res))
+            os._exit(0)
     for call in range(ncalls):
         state = {"done": False, "ret": None, "exc": None}
         if call == 1:
